@@ -819,6 +819,23 @@ func exec(c px.Context, op string, args []sx.Sexp) core.Result {
 	}
 	if xref {
 		res.Tags = append(res.Tags, "xref")
+		// DependencyLoader.LoaderFor (what rt.Loader(key) answers): the member that carries the module name, nil otherwise
+		if dl, ok := w.dep.(px.DependencyLoader); ok && !strings.HasPrefix(res.Pred, "FAIL") {
+			bad := ""
+			for _, m := range s.mods {
+				if got := dl.LoaderFor(m); got == nil || got != w.mods[m] {
+					bad = "LoaderFor(" + m + ") is not the loader of module " + m
+				}
+			}
+			for _, m := range []string{"", "nomod", "Mymod"} {
+				if _, isMod := w.mods[m]; !isMod && dl.LoaderFor(m) != nil {
+					bad = "LoaderFor(" + m + ") answers a loader although no module has that name"
+				}
+			}
+			if bad != "" {
+				res = core.Fail(out, "loaderfor-mismatch", bad)
+			}
+		}
 	}
 	if forked {
 		// the same oracle; a definition that is lost with the fork that loaded it gets its own class
